@@ -291,9 +291,8 @@ def _materialize(files, names):
 
 def _get(path):
     from fcp.parser import get_fcp
-    from fcp.error import Logger
 
-    return get_fcp(path, Logger({}))
+    return get_fcp(path)      # the public entry point with its default logger, as in the symbolic run
 
 
 def _leaf_type(t):
